@@ -659,8 +659,11 @@ class Gen(object):
         r = self.rng.random()
         if r < 0.35:
             return self.name()
-        if r < 0.5:
+        if r < 0.44:
             return str(self.rng.randint(0, 9))
+        if r < 0.5:
+            self.kind('multiline-str')
+            return self.rng.choice(["'<ul>\\n%s</ul>'", "'a\\nb\\n'", "'first line\\n  second'"])
         if r < 0.62:
             return '%s(%s)' % (self.rng.choice(FUNCS), ', '.join(self.expr(depth + 1) for _ in range(self.rng.randint(0, 2))))
         if r < 0.68 and depth < 2:
@@ -704,7 +707,9 @@ class Gen(object):
             m2 = self.rng.choice(MODS)
             return self.rng.choice(['import %s' % m, 'import %s as %s' % (m, self.name()), 'from %s import %s' % (m, self.name()),
                                     'import %s, %s as %s' % (m, m2, self.name()),
-                                    'from %s import %s, %s as %s' % (m, self.name(), self.name(), self.name())])
+                                    'from %s import %s, %s as %s' % (m, self.name(), self.name(), self.name()),
+                                    'from %s import %s, %s, %s' % (m, self.name(), self.name(), m),
+                                    'from %s import %s, %s, %s, %s' % (m, self.name(), m2, self.name(), m)])
         if r < 0.85:
             return 'pass'
         if r < 0.9 and in_func:
@@ -988,6 +993,15 @@ class _Relayout(ast._Unparser):
         if self._depth > 0 and not self._nosplit and text == (', ',) and self.rng.random() < self.p_split:
             text = (',\n' + ' ' * self.rng.randint(0, 12),)
         super().write(*text)
+
+    def visit_Constant(self, node):
+        v = node.value
+        if (isinstance(v, str) and '\n' in v and not self._nosplit and self.rng.random() < 0.6 and v.isascii()
+                and '\\' not in v and '"' not in v and "'" not in v and '\r' not in v and v.isprintable() is False
+                and all(c == '\n' or c.isprintable() for c in v) and getattr(node, 'kind', None) is None):
+            self.write('"""' + v + '"""')          # a literal that spans several lines
+            return
+        super().visit_Constant(node)
 
     def visit_JoinedStr(self, node):
         self._nosplit += 1
